@@ -653,6 +653,162 @@ where
 // ---------------------------------------------------------------------------
 // C03: shadow-buffer monitor around the mutating routines
 // ---------------------------------------------------------------------------
+/// The in-place routines on elements that own a resource (Drop, not Copy): besides "only permute the lanes"
+/// (judged on the keys), no element may be destroyed while the array still holds it - the lifecycle monitor
+/// reports an element dropped twice or used after its drop.
+fn c03_owned(rng: &mut Rng, acc: &mut Acc) {
+    let nd = *rng.pick(&[1usize, 1, 2, 2, 3]);
+    let axis = rng.below(nd);
+    let mut shape: Vec<usize> = (0..nd).map(|_| 1 + rng.below(3)).collect();
+    let lmax = if rng.chance(0.1) { 40 } else { 9 };
+    shape[axis] = 1 + rng.below(lmax);
+    let total: usize = shape.iter().product();
+    let alpha = *rng.pick(&[1i64, 2, 4, 100]);
+    let keys: Vec<i64> = (0..total).map(|_| rng.range(0, alpha)).collect();
+    let layout = if rng.chance(0.2) { Layout::canonical(nd) } else { Layout::random(nd, rng) };
+    let lanes = lanes_of(&shape, axis);
+    let n = shape[axis];
+    let op = rng.below(7);
+    let pol = pick_policy(rng);
+    life_reset();
+    acc.eval();
+    let opname;
+    let verdict: Result<(), (String, String)> = {
+        let data: Vec<Res> = keys.iter().map(|&k| Res::new(k)).collect();
+        let mut e = Embedded::new(&shape, &data, layout.clone());
+        let before = e.parent_bits();
+        let inview = e.in_view_mask();
+        set_pivots(pol);
+        let r: Result<(), String> = {
+            let mut v = e.view_mut();
+            match op {
+                0 => {
+                    opname = "quantiles_axis_mut";
+                    let qa: Array1<N64> = (0..rng.below(5))
+                        .map(|_| {
+                            let u = rng.unit();
+                            n64(*rng.pick(&[0.0, 1.0, 0.5, u]))
+                        })
+                        .collect();
+                    let st = rng.below(3);
+                    catch(|| {
+                        match st {
+                            0 => v.quantiles_axis_mut(Axis(axis), &qa, &Lower).map(|_| ()),
+                            1 => v.quantiles_axis_mut(Axis(axis), &qa, &Nearest).map(|_| ()),
+                            _ => v.quantiles_axis_mut(Axis(axis), &qa, &Higher).map(|_| ()),
+                        }
+                        .unwrap();
+                    })
+                }
+                1 => {
+                    opname = "quantile_axis_mut";
+                    let q = n64(rng.unit());
+                    catch(|| {
+                        v.quantile_axis_mut(Axis(axis), q, &Lower).unwrap();
+                    })
+                }
+                _ => {
+                    // 1-D routines on the first lane, reached through a 1-D view of it
+                    let mut lv = v.view_mut();
+                    let mut cur = 0;
+                    for a in 0..nd {
+                        if a != axis {
+                            lv.collapse_axis(Axis(cur), 0);
+                        }
+                        cur += 1;
+                    }
+                    let mut l1 = lv.into_dimensionality::<IxDyn>().unwrap();
+                    // drop the collapsed axes (all of length 1 now)
+                    for a in (0..nd).rev() {
+                        if a != axis {
+                            l1 = l1.index_axis_move(Axis(a), 0);
+                        }
+                    }
+                    let mut l1 = l1.into_dimensionality::<Ix1>().unwrap();
+                    match op {
+                        2 => {
+                            opname = "partition_mut";
+                            let p = rng.below(n);
+                            catch(|| {
+                                l1.partition_mut(p);
+                            })
+                        }
+                        3 => {
+                            opname = "get_from_sorted_mut";
+                            let i = rng.below(n);
+                            catch(|| {
+                                l1.get_from_sorted_mut(i);
+                            })
+                        }
+                        4 => {
+                            opname = "get_many_from_sorted_mut";
+                            let m = rng.below(n + 3);
+                            let req: Array1<usize> = (0..m).map(|_| rng.below(n)).collect();
+                            catch(|| {
+                                l1.get_many_from_sorted_mut(&req);
+                            })
+                        }
+                        5 => {
+                            opname = "quantile_mut";
+                            let q = n64(rng.unit());
+                            catch(|| {
+                                l1.quantile_mut(q, &Higher).unwrap();
+                            })
+                        }
+                        _ => {
+                            opname = "quantiles_mut";
+                            let qa: Array1<N64> = (0..rng.below(5)).map(|_| n64(rng.unit())).collect();
+                            catch(|| {
+                                l1.quantiles_mut(&qa, &Lower).unwrap();
+                            })
+                        }
+                    }
+                }
+            }
+        };
+        let after = e.parent_bits();
+        match r {
+            Err(m) => Err(("no_panic".to_string(), format!("panicked: {}", m))),
+            Ok(()) => {
+                if (0..before.len()).any(|c| !inview[c] && before[c] != after[c]) {
+                    Err(("outside_view".to_string(), "a cell of the parent buffer outside the view changed".to_string()))
+                } else {
+                    let mut bad = None;
+                    for (li, l) in lanes.iter().enumerate() {
+                        let mut b: Vec<(u8, u128)> = l.iter().map(|&i| before[e.pos[i]]).collect();
+                        let mut a: Vec<(u8, u128)> = l.iter().map(|&i| after[e.pos[i]]).collect();
+                        b.sort();
+                        a.sort();
+                        if a != b {
+                            bad = Some(li);
+                            break;
+                        }
+                    }
+                    match bad {
+                        Some(li) => Err(("lane_multiset".to_string(), format!("lane {} does not hold its former keys", li))),
+                        None => Ok(()),
+                    }
+                }
+            }
+        }
+        // the array, the originals and every temporary are dropped here
+    };
+    let (_alive, events) = life_stats();
+    acc.max("lifecycle_events_per_case", events as f64);
+    acc.count(&format!("owned_op_{}", opname));
+    acc.count(&format!("layout_{}", layout.class()));
+    let info = |what: String| J::obj(vec![("op", J::s(format!("{} on elements that own a resource", opname))), ("shape", J::us(&shape)), ("axis", J::u(axis)), ("layout", layout.to_json()), ("keys", J::A(keys.iter().map(|&x| J::I(x as i128)).collect())), ("what", J::s(what))]);
+    if let Some(f) = life_fault() {
+        acc.violation("element_lifecycle", None, info(f));
+    } else if let Err((mon, what)) = verdict {
+        acc.violation(&mon, None, info(what));
+    }
+    if total >= 2 {
+        acc.nontrivial(h64(&(&shape, axis, &layout, &keys, op, take_pivot_log())));
+    }
+    acc.sample(|| info("sample".into()));
+}
+
 fn c03_tracked(rng: &mut Rng, acc: &mut Acc) {
     // n-D array of Tracked; routines: quantile(s)_axis_mut on the whole array; 1-D routines on one lane view
     let nd = *rng.pick(&[1usize, 2, 2, 3, 3, 4]);
@@ -1314,6 +1470,7 @@ fn main() {
         let n = |q: u64, t: u64| ((r.args.n(q, t) as f64) * scale).ceil() as u64;
         r.section("tracked_routines", n(30_000, 2_000_000), |_k, rng, acc| c03_tracked(rng, acc));
         r.section("arc_handles", n(3_000, 100_000), |_k, rng, acc| c03_arc(rng, acc));
+        r.section("owned_elems", n(12_000, 600_000), |_k, rng, acc| c03_owned(rng, acc));
         r.section("skipnan_quantile", n(12_000, 600_000), |k, rng, acc| {
             by_lane_type!(k as usize, c03_skipnan, rng, acc);
         });
